@@ -116,7 +116,8 @@ theorem c04_npm_only_sections (content : Text) (tree : Node) (p : PkgInfo) (h : 
       simp [this] at h
 
 /-- the documented sections are exactly these four -/
-theorem c04_npm_sections : Generated.dependencyFields = ["dependencies", "devDependencies", "peerDependencies", "overrides"] := rfl
+theorem c04_npm_sections :
+    Generated.dependencyFields = ["dependencies", "devDependencies", "peerDependencies", "optionalDependencies", "overrides"] := rfl
 
 /-- **non-registry specifiers are never checked**: a value that starts with one of the prefixes
     `catalog:` `workspace:` `file:` `link:` `git+` `git:` `git@` `github:` `http:` `https:` yields nothing -/
@@ -214,14 +215,25 @@ theorem c04_npm_plain (key raw : Text) (h : stripPrefix Sites.npmPrefix raw = no
 
 /-- the prefixes, as the code lists them now -/
 theorem c04_npm_nonregistry_list : Generated.nonRegistryPrefixes =
-    ["catalog:", "workspace:", "file:", "link:", "git+", "git:", "git@", "github:", "http:", "https:"] := rfl
+    ["catalog:", "workspace:", "file:", "link:", "git+", "git:", "git@", "github:", "gitlab:", "bitbucket:", "gist:", "http:", "https:"] := rfl
+
+/-- **a specifier with a slash is never checked unless it is an `npm:` alias** (`user/repo`, `./x.tgz`, `../dir`, `~/dir`,
+    `/abs`, `user/repo#semver:^1`): for every text around the slash -/
+theorem c04_npm_slash_never (a b : Text) (h : startsWith (a ++ '/' :: b) "npm:".toList = false) :
+    nonRegistry (a ++ '/' :: b) = true := by
+  unfold nonRegistry
+  have h1 : (a ++ '/' :: b).any (· == '/') = true := by simp
+  rw [h1, h]
+  simp
 
 /-- every kind of non-registry specifier the property lists is recognised (F-C04-1, fixed) -/
 theorem c04_npm_nonregistry_examples :
     nonRegistry "workspace:*".toList = true ∧ nonRegistry "file:../local".toList = true ∧ nonRegistry "link:../x".toList = true ∧
     nonRegistry "git+https://github.com/a/b.git#v1".toList = true ∧ nonRegistry "github:user/repo".toList = true ∧
     nonRegistry "https://example.com/x.tgz".toList = true ∧ nonRegistry "catalog:".toList = true ∧
-    nonRegistry "^1.2.3".toList = false ∧ nonRegistry "npm:real@1.0.0".toList = false ∧ nonRegistry "latest".toList = false := by
+    nonRegistry "user/repo".toList = true ∧ nonRegistry "./local.tgz".toList = true ∧ nonRegistry "gist:abc".toList = true ∧
+    nonRegistry "^1.2.3".toList = false ∧ nonRegistry "npm:real@1.0.0".toList = false ∧ nonRegistry "npm:@scope/real@1.0.0".toList = false ∧
+    nonRegistry "latest".toList = false := by
   decide
 
 /-! ### deno.json -/
